@@ -109,6 +109,9 @@ def run_shard(shard):
         except Exception:  # noqa: BLE001
             return True, None
 
+    def hash_idx(seed, n):
+        return int(seed) % n
+
     def typed_point(tagarr, shape):
         x = np.full(shape, 0.3)
         if tagarr is not None and tagarr.shape == tuple(shape):
@@ -199,6 +202,29 @@ def run_shard(shard):
                         v("accepted.wrong_condition_shape", f"{name}.{m} accepted a condition of shape {w} (declared {cshape})", it,
                           {"method": m, "cond_shape": w, "declared": cshape})
                         break
+        # ---- the same rejections while being traced (jit / vmap): the shape is static there too, and most real calls are traced
+        if avail:
+            m = avail[hash_idx(it["bseed"], len(avail))]
+            xg = typed_point(dtag if m.startswith("transform") else ctag, shape)
+            wrong = [w for w in lattice(shape) if broadcastable(w, shape) or broadcastable(shape, w)][:2]
+            probes = [("x", w, (lambda w=w: jax.jit(lambda x: getattr(b, m)(x, good_c))(jnp.full(w, 0.3))), "jit") for w in wrong]
+            probes += [("x", w, (lambda w=w: jax.vmap(lambda x: getattr(b, m)(x, good_c))(jnp.full((2, *w), 0.3))), "vmap") for w in wrong[:1]]
+            if cshape is not None:
+                wc = [w for w in lattice(cshape) if broadcastable(w, cshape) or broadcastable(cshape, w)][:1]
+                probes += [("c", w, (lambda w=w: jax.jit(lambda c: getattr(b, m)(xg, c))(jnp.full(w, 0.1))), "jit") for w in wc]
+                probes += [("c", w, (lambda w=w: jax.vmap(lambda c: getattr(b, m)(xg, c))(jnp.full((2, *w), 0.1))), "vmap") for w in wc]
+            for what, w, fn, tr in probes:
+                rec.evals += 1
+                key = (name, it["bseed"], m, what, w, tr)
+                cases.add(key)
+                rec.nontrivial.add(key)
+                ok, out = must_raise(fn)
+                rec.count("wrong_shape_calls_under_" + tr)
+                if not ok:
+                    o = out[0] if isinstance(out, tuple) else out
+                    v(f"accepted.wrong_{'x' if what == 'x' else 'condition'}_shape", f"{name}.{m} under jax.{tr} accepted {'x' if what == 'x' else 'a condition'} of shape {w} "
+                      f"(declared {shape if what == 'x' else cshape}) and returned shape {tuple(o.shape)}", it, {"method": m, "shape": w, "under": tr})
+                    break
         if len(rec.samples) < 2 and it["origin"] == "random":
             rec.samples.append(jsonable({"structure": it.get("spec"), "declared_shape": shape, "declared_cond_shape": cshape,
                                          "wrong_x_shapes_tried": lattice(shape)[:8], "methods": avail}))
@@ -293,6 +319,13 @@ def run_shard(shard):
             "Chain(cond mismatch, unconditional first)": lambda: B.Chain([A3, C2, A3, A3, C4]),
             "Concatenate(cond mismatch around an unconditional member)": lambda: B.Concatenate([C2, A3, C4]),
             "Stack(cond mismatch around an unconditional member)": lambda: B.Stack([C2, A3, C4]),
+            "Concatenate(axis=1, members differ before the axis)": lambda: B.Concatenate([B.Affine(jnp.zeros((2, 3))), B.Affine(jnp.zeros((4, 5)))], axis=1),
+            "Concatenate(axis=-1, members differ before the axis)": lambda: B.Concatenate([B.Affine(jnp.zeros((2, 3))), B.Affine(jnp.zeros((1, 3)))], axis=-1),
+            "Concatenate(axis=2, members differ in axis 0)": lambda: B.Concatenate([B.Affine(jnp.zeros((2, 3, 2))), B.Affine(jnp.zeros((3, 3, 2)))], axis=2),
+            "Concatenate(axis=0, members differ after the axis)": lambda: B.Concatenate([B.Affine(jnp.zeros((2, 3))), B.Affine(jnp.zeros((2, 4)))], axis=0),
+            "Concatenate(axis=1 of 3, members differ after the axis)": lambda: B.Concatenate([B.Affine(jnp.zeros((2, 3, 2))), B.Affine(jnp.zeros((2, 3, 1)))], axis=1),
+            "Stack(axis=1, members differ)": lambda: B.Stack([B.Affine(jnp.zeros((2, 3))), B.Affine(jnp.zeros((2, 1)))], axis=1),
+            "Stack(axis=-1, members differ in axis 0)": lambda: B.Stack([B.Affine(jnp.zeros((2, 3))), B.Affine(jnp.zeros((1, 3)))], axis=-1),
             "Chain(shape mismatch)": lambda: B.Chain([A3, A2]), "Chain(scalar vs vector)": lambda: B.Chain([B.Affine(), A3]),
             "Chain((1,3) vs (3,))": lambda: B.Chain([B.Affine(jnp.zeros((1, 3))), A3]), "Chain(cond mismatch)": lambda: B.Chain([C2, C4]),
             "Concatenate(other axis mismatch)": lambda: B.Concatenate([A23, A32], axis=0), "Concatenate(rank mismatch)": lambda: B.Concatenate([A3, A23], axis=0),
